@@ -336,22 +336,48 @@ def gen_model(rng, dadi, nparam=None, ncell=None, corners=False):
             B[k, 0] = coarse(rng.uniform(0.2, 3.0)); B[k, ns] = coarse(rng.uniform(0.2, 1.0))
     return dict(n=n, ns=ns, B=B)
 
-def model_func(dadi, B, calls=None, tag=None, masks=None):
-    """masks (optional): entries the *model* masks beyond the corners (`model`), corners left unmasked (`model_corners`)"""
+def model_func(dadi, B, calls=None, tag=None, masks=None, shape=None):
+    """masks (optional): entries the *model* masks beyond the corners (`model`, flat indices), corners left unmasked (`model_corners`);
+    shape (optional): the spectrum is the flat array of B reshaped to that shape (P populations)"""
     mm = list((masks or {}).get('model', [])); mc = bool((masks or {}).get('model_corners'))
     def func(params, ns, pts):
         if calls is not None: calls.append((tag, tuple(float(x) for x in params)))
         a = B[0].copy()
         for k in range(B.shape[0] - 1):
             a = a + float(params[k]) * B[k + 1]
+        if shape is not None: a = a.reshape(shape)
         if masks is None: return dadi.Spectrum(a)
         fs = dadi.Spectrum(a, mask_corners=not mc)
-        for i in mm: fs.mask[i] = True
+        for i in mm: fs.mask.flat[i] = True
         return fs
     return func
 
-def gen_dataset(rng, dadi, mdl, p, theta, nboot, masks=None):
+def own_fold(arr, mask):
+    """folding of a (P-population) spectrum, from its definition: entries whose total derived-allele count is above half the total sample
+    size are added to their mirror image (every axis reversed) and dropped (0, masked); entries at exactly half are averaged with their
+    mirror image; an entry is masked if it or its mirror image was; the constructor masks the two corners.  Returns (values, mask)."""
+    arr = np.asarray(arr, dtype=float); mask = np.asarray(mask, dtype=bool)
+    rev = tuple(slice(None, None, -1) for _ in arr.shape)
+    tot = np.indices(arr.shape).sum(axis=0); T = sum(n - 1 for n in arr.shape)
+    out = np.where(2 * tot < T, arr + arr[rev], np.where(2 * tot == T, 0.5 * (arr + arr[rev]), 0.0))
+    m = mask | mask[rev] | (2 * tot > T)
+    m.flat[0] = True; m.flat[-1] = True
+    return out, m
+
+def gen_dataset(rng, dadi, mdl, p, theta, nboot, masks=None, shape=None, fold=False):
     M = (mdl['B'][0] + sum(p[k] * mdl['B'][k + 1] for k in range(mdl['n']))) * theta
+    if shape is not None or fold:
+        # P-population and/or folded data: the flat Poisson draw is reshaped, masked (flat indices) and then folded by the real code
+        mk = masks or {}
+        def drawnd(extra, unmask_corners):
+            d = rng.poisson(M).astype(float)
+            if not mk.get('model_corners'): d[0] = 0; d[-1] = 0
+            if d[1:-1].sum() == 0: d[1] = 1.0
+            fs = dadi.Spectrum(d.reshape(shape) if shape is not None else d, mask_corners=not unmask_corners)
+            for i in extra: fs.mask.flat[i] = True
+            return fs.fold() if fold else fs
+        return drawnd(mk.get('data', []), bool(mk.get('data_corners'))), [drawnd(mk['boots'][b] if b < len(mk.get('boots', [])) else [], bool(mk.get('boot_corners')))
+                                                                           for b in range(nboot)]
     if masks is None:
         def draw():
             d = rng.poisson(M).astype(float)
@@ -553,11 +579,15 @@ def gen_pipeline_case(rng, dadi, api=None, **force):
     corners; otherwise one of MASK_MODES), nested_size (number of nested indices; with multinom=True the index of theta may be among them)"""
     mask_mode = force.get('mask_mode') or 'none'
     mc = None
+    shape = tuple(force['shape']) if force.get('shape') else None; fold = bool(force.get('fold'))
+    ncell = None
     if mask_mode != 'none':
         # enough entries that 2-5 masked ones leave the information matrices well determined
         ncell = int(rng.integers(11, 17))
         mc = bool(mask_mode in ('corners', 'boot_corners'))
-    mdl = gen_model(rng, dadi, nparam=force.get('nparam'), ncell=ncell if mask_mode != 'none' else None, corners=bool(mc))
+    if fold and shape is None: ncell = int(rng.integers(16, 23))           # folding halves the number of entries that enter
+    if shape is not None: ncell = int(np.prod(shape)) - 1
+    mdl = gen_model(rng, dadi, nparam=force.get('nparam'), ncell=ncell, corners=bool(mc))
     n = mdl['n']
     api = api or APIS[int(rng.integers(len(APIS)))]
     multinom = bool(rng.random() < 0.5) if 'multinom' not in force else force['multinom']
@@ -591,6 +621,8 @@ def gen_pipeline_case(rng, dadi, api=None, **force):
     if 'variant' not in force and api in ('GIM_uncert', 'FIM_uncert') and rng.random() < 0.3: variant = 'plain'
     case = dict(pipeline=True, api=api, B=mdl['B'], n=n, ns=mdl['ns'], p=p, theta=theta, nboot=nboot, eps=eps, multinom=multinom, log=log,
                 nested=nested, full=full, thetas=thetas, thetas_mode=tmode, variant=variant, dseed=int(rng.integers(1 << 30)))
+    if shape is not None: case['shape'] = list(shape)
+    if fold: case['fold'] = True
     if mask_mode != 'none':
         case['masks'] = gen_masks(rng, mask_mode, mdl['ns'], nboot)
         if mask_mode == 'corners' and not case['masks']['model_corners']:
@@ -602,8 +634,15 @@ def realise(dadi, case):
     B = np.asarray(case['B'], dtype=float) if not isinstance(case['B'], dict) else np.array(case['B']['data'], dtype=float).reshape(case['B']['shape'])
     mdl = dict(n=case['n'], ns=case['ns'], B=B)
     masks = case.get('masks')
-    data, boots = gen_dataset(r, dadi, mdl, case['p'], case['theta'], case['nboot'], masks=masks)
-    if case.get('thetas') and masks is None:
+    shape = tuple(case['shape']) if case.get('shape') else None
+    data, boots = gen_dataset(r, dadi, mdl, case['p'], case['theta'], case['nboot'], masks=masks, shape=shape, fold=bool(case.get('fold')))
+    if case.get('thetas') and (shape is not None or case.get('fold')):
+        nb = []
+        for b, t in zip(boots, case['thetas']):
+            v = np.round(np.asarray(b.data) * t)
+            nb.append(dadi.Spectrum(v, mask=np.array(np.ma.getmaskarray(b)), mask_corners=False, data_folded=bool(case.get('fold'))))
+        boots = nb
+    elif case.get('thetas') and masks is None:
         boots = [dadi.Spectrum(np.round(np.asarray(b) * t)) for b, t in zip(boots, case['thetas'])]
         for b in boots:
             if b[1:-1].sum() == 0: b[1] = 1.0
@@ -623,7 +662,11 @@ def keep_sets(case, ncell, data, boots):
     mk = np.ones(ncell, dtype=bool)
     if not masks.get('model_corners'): mk[0] = False; mk[-1] = False
     for i in masks.get('model', []): mk[i] = False
-    return mk, mk & ~np.ma.getmaskarray(data), [mk & ~np.ma.getmaskarray(b) for b in boots]
+    if case.get('fold'):
+        # folded data: the likelihood is taken on the folded model, whose mask is the model's mask or its mirror image, the folded-out half, the corners
+        shp = tuple(case['shape']) if case.get('shape') else (ncell,)
+        mk = ~own_fold(np.zeros(shp), (~mk).reshape(shp))[1].ravel()
+    return mk, mk & ~np.ma.getmaskarray(data).ravel(), [mk & ~np.ma.getmaskarray(b).ravel() for b in boots]
 
 def bits(mask):
     return ''.join('1' if b else '0' for b in np.asarray(mask, dtype=bool).ravel())
@@ -632,6 +675,8 @@ def ll_k_case(chk, ctx, small, model, data, tag):
     """K: Inference.ll(model, data) and the number of entries it sums vs the Lean model (generated per-entry expression, generated
     mask analysis); log(model) and gammaln(data+1) are inputs"""
     dadi = ctx['dadi']; drv = ctx['driver']
+    if np.ndim(model) != 1 or getattr(data, 'folded', False) or getattr(model, 'folded', False):
+        return ll_nd_k_case(chk, ctx, small, model, data, tag)
     mm = np.ma.getmaskarray(model); dm = np.ma.getmaskarray(data)
     m = np.asarray(model.data, dtype=float).ravel(); d = np.asarray(data.data, dtype=float).ravel()
     if not (np.all(np.isfinite(m)) and np.all(np.isfinite(d)) and np.all(d >= 0)):
@@ -651,6 +696,38 @@ def ll_k_case(chk, ctx, small, model, data, tag):
     else: chk.k_bad('ll', sm, dict(ll=got, entries=cnt), dict(ll=want, entries=wc), abs(got - want))
     chk.stat('ll:model_mask%sdata_mask' % ('=' if np.array_equal(mm, dm) else ('<' if np.all(dm[mm]) else ('>' if np.all(mm[dm]) else '<>'))))
 
+def ll_nd_k_case(chk, ctx, small, model, data, tag):
+    """K for P-population and/or folded spectra: Inference.ll(model, data) -- which folds the model itself when the data is folded and
+    the model is not -- vs the Lean model (generated folding switch, the pointwise programs generated from Spectrum.fold, generated
+    per-entry expression and mask analysis).  The logarithms handed to the model are those of the harness's OWN fold of the model; the
+    model's folded values and mask are compared with the real `model.fold()` as well."""
+    dadi = ctx['dadi']; drv = ctx['driver']
+    df = bool(getattr(data, 'folded', False)); mf = bool(getattr(model, 'folded', False))
+    mm = np.ma.getmaskarray(model); dm = np.ma.getmaskarray(data)
+    m = np.asarray(model.data, dtype=float); d = np.asarray(data.data, dtype=float)
+    if not (np.all(np.isfinite(m)) and np.all(np.isfinite(d)) and np.all(d >= 0)) or (mf and not df):
+        chk.k_skipped += 1; return
+    seen_v, seen_m = own_fold(m, mm) if (df and not mf) else (m, mm)
+    logm = [math.log(v) if v > 0 else 0.0 for v in seen_v.ravel()]
+    lg = [math.lgamma(v + 1.0) for v in d.ravel()]
+    with quiet(), np.errstate(all='ignore'):
+        got = float(dadi.Inference.ll(model, data)); cnt = int(dadi.Inference.ll_per_bin(model, data).count())
+        real_fold = model.fold() if (df and not mf) else model
+    out = drv.ask('c19.llnd %s %d %d %s %s %s %s %s %s' % (','.join(str(n) for n in m.shape), df, mf, bits(mm), bits(dm), fmt_list(m.ravel().tolist()),
+                                                        fmt_list(d.ravel().tolist()), fmt_list(logm), fmt_list(lg)))
+    t = out.split(' ')
+    sm = dict(small); sm['ll'] = dict(which=tag, shape=list(m.shape), data_folded=df, model_folded=mf, model_mask=bits(mm), data_mask=bits(dm))
+    if t[0] != 'ok' or len(t) != 5:
+        chk.k_bad('ll', sm, got, out, None); return
+    want = float(Fraction(t[1])); wc = int(t[2])
+    mv = np.array([float(v) for v in parse_list(t[3])]); mb = t[4]
+    scale = float(np.sum(np.abs(seen_v)) + np.sum(np.abs(d.ravel() * np.array(logm))) + np.sum(np.abs(lg)))
+    rm = np.ma.getmaskarray(real_fold).ravel(); rv = np.asarray(real_fold.data, dtype=float).ravel()
+    fold_ok = (mb == bits(rm)) and np.all(np.abs(mv - rv)[~rm] <= 1e-12 * np.maximum(np.abs(rv[~rm]), 1e-300))
+    if cnt == wc and abs(got - want) <= 1e-10 * max(scale, 1e-300) and fold_ok: chk.k_ok('ll')
+    else: chk.k_bad('ll', sm, dict(ll=got, entries=cnt, model_mask_seen=bits(rm)), dict(ll=want, entries=wc, model_mask_seen=mb), abs(got - want))
+    chk.stat('ll:%dD%s' % (m.ndim, ':folded_data' if df else ''))
+
 def pipeline_case(chk, ctx, case):
     """one entry point on one linear Poisson model: K (assembly from the captured gradients/Hessian) and L3 (closed forms)"""
     dadi = ctx['dadi']; G = dadi.Godambe; drv = ctx['driver']
@@ -660,13 +737,15 @@ def pipeline_case(chk, ctx, case):
     # multinom=False: theta is part of the model (all spectra scaled by it); multinom=True: theta is found by the code
     if not multinom: B = B * case['theta']
     masks = case.get('masks'); mmode = masks['mode'] if masks else 'none'
-    func = model_func(dadi, B, masks=masks)
+    shape = tuple(case['shape']) if case.get('shape') else None; fold = bool(case.get('fold'))
+    func = model_func(dadi, B, masks=masks, shape=shape)
     p_in = list(case['p']); f_in = func
     nested, full, thetas = case['nested'], case['full'], case['thetas']
     variant = case.get('variant'); tmode = case.get('thetas_mode') or ('varied' if thetas else 'none')
-    key0 = '%s:multinom=%s%s%s%s' % (api, multinom, ':log' if log else '', ':boot_theta_adjusts' if tmode == 'varied' else '', ':masks=' + mmode if masks else '')
-    chk.l3((api, multinom, log, n, tmode, variant, tuple(nested) if nested else None, mmode))
-    chk.stat('masks:' + mmode)
+    key0 = '%s:multinom=%s%s%s%s%s%s' % (api, multinom, ':log' if log else '', ':boot_theta_adjusts' if tmode == 'varied' else '', ':masks=' + mmode if masks else '',
+                                      ':%dpop' % len(shape) if shape else '', ':folded' if fold else '')
+    chk.l3((api, multinom, log, n, tmode, variant, tuple(nested) if nested else None, mmode, len(shape) if shape else 1, fold))
+    chk.stat('masks:' + mmode); chk.stat('spectra:%dpop%s' % (len(shape) if shape else 1, ':folded' if fold else ''))
     if nested is not None: chk.stat('nested_indices:%d%s' % (len(nested), ':with_theta' if (multinom and n in nested) else ''))
     chk.stat('api:' + api); chk.stat('multinom:%s' % multinom);
     if log: chk.stat('log_params')
@@ -781,9 +860,16 @@ def pipeline_case(chk, ctx, case):
     if not hess_only and len(seen) == len(boots):
         for b, (given, got) in enumerate(zip(boots, seen)):
             gm, sm_ = np.ma.getmaskarray(given), np.ma.getmaskarray(got)
-            out = drv.ask('c19.bootmask %s' % bits(gm))
-            if out == 'ok ' + bits(sm_): chk.k_ok('bootstrap_mask')
-            else: chk.k_bad('bootstrap_mask', small, bits(sm_), out, None)
+            if gm.ndim == 1:
+                out = drv.ask('c19.bootmask %s' % bits(gm))
+                want_out = 'ok ' + bits(sm_)
+            else:
+                # P populations: the mask on the flat array, and where the two corner entries [0,...,0] and [n1,...,nP] are in it
+                out = drv.ask('c19.bootmasknd %s %s' % (','.join(str(v) for v in gm.shape), bits(gm)))
+                want_out = 'ok %s %d %d' % (bits(sm_), int(np.ravel_multi_index(tuple(0 for _ in gm.shape), gm.shape)),
+                                            int(np.ravel_multi_index(tuple(v - 1 for v in gm.shape), gm.shape)))
+            if out == want_out: chk.k_ok('bootstrap_mask')
+            else: chk.k_bad('bootstrap_mask', small, want_out, out, None)
             if not np.array_equal(gm, sm_): remasked[b] = bits(sm_)
     case = dict(case); case['_remasked'] = remasked
     # ---- the likelihood that was differentiated (K): Inference.ll on these spectra vs the generated expression / mask analysis
@@ -802,8 +888,12 @@ def l3_closed_forms(chk, ctx, case, small, key0, B, data, boots, func, p_in, f_i
     nested, full, thetas = case['nested'], case['full'], case['thetas']
     variant = case.get('variant'); hess_only = api == 'FIM_uncert' or (api == 'get_godambe' and variant == 'just_hess')
     masks = case.get('masks')
-    d = np.asarray(np.ma.getdata(data), dtype=float); bs = [np.asarray(np.ma.getdata(b), dtype=float) for b in boots]
+    d = np.asarray(np.ma.getdata(data), dtype=float).ravel(); bs = [np.asarray(np.ma.getdata(b), dtype=float).ravel() for b in boots]
     mk, keep_d, keep_bs = keep_sets(case, B.shape[1], data, boots)
+    if case.get('fold'):
+        # folding is linear: the folded model is linear in the parameters with folded offset and basis spectra
+        shp = tuple(case['shape']) if case.get('shape') else (B.shape[1],)
+        B = np.array([own_fold(row.reshape(shp), np.zeros(shp, dtype=bool))[0].ravel() for row in B])
     mode = ('multinom' if multinom else 'plain') + ('_log' if log else '')
     if mode == 'plain_log': mode = 'log'
     if multinom:
@@ -991,6 +1081,19 @@ def mask_matrix(rng, dadi):
             cases.append(gen_pipeline_case(rng, dadi, api=api, mask_mode=mode))
     return cases
 
+ND_SHAPES = [(4, 6), (5, 5), (6, 5), (3, 8), (4, 4, 3)]
+
+def nd_matrix(rng, dadi):
+    """every entry point x {two/three populations; folded data (one population); folded data (two populations)}, with and without mask
+    patterns in which model, data and bootstraps differ (the model function returns an unfolded spectrum: ll folds it)"""
+    cases = []
+    for api in APIS_ALL:
+        for kind in ('nd', 'fold1', 'foldnd'):
+            shape = ND_SHAPES[int(rng.integers(len(ND_SHAPES)))] if kind != 'fold1' else None
+            mm = ['none', 'data_only', 'model_only', 'boots_vary', 'data_boots_same'][int(rng.integers(5))]
+            cases.append(gen_pipeline_case(rng, dadi, api=api, shape=shape, fold=kind != 'nd', mask_mode=mm, log=False))
+    return cases
+
 def perm_case(chk, ctx, case, rng):
     """L3: the order of the bootstrap list (and of boot_theta_adjusts with it) does not matter"""
     dadi = ctx['dadi']; G = dadi.Godambe
@@ -1000,7 +1103,7 @@ def perm_case(chk, ctx, case, rng):
     multinom = case['multinom']
     small = dict(case); small['B'] = np.asarray(B); small['perm'] = True
     if not multinom: B = B * case['theta']
-    func = model_func(dadi, B, masks=case.get('masks'))
+    func = model_func(dadi, B, masks=case.get('masks'), shape=tuple(case['shape']) if case.get('shape') else None)
     p_in = list(case['p'])
     full = case['full']
     try:
@@ -1151,6 +1254,129 @@ def cache_k_case(chk, ctx, hist):
     else:
         chk.k_bad('cache', small, len(ld), out, None)
 
+def cacheadj_case(chk, ctx, case, rng):
+    """boot_theta_adjusts and the module-level cache.  One history on ONE user function and cache: an entry point with varied adjustments
+    (multinom=False), then FIM_uncert on the same function / parameters / eps (it reads the spectra the first call stored), then the first
+    call again with the (bootstrap, adjustment) pairs permuted together.
+    L3 (from the statement): every spectrum the cache holds afterwards is what the model function returns for those parameters (the cached
+    spectrum is never rescaled); each call of the history returns what it returns on an empty cache; permuting the pairs together changes
+    nothing.  Recorded, not judged: permuting only the bootstraps (adjustments left in place) does change the result.
+    K: for every evaluation of the cached likelihood (logging dictionary + spied Inference.ll) the factor between the spectrum whose
+    likelihood was taken and the model function's spectrum, and the factor of every stored spectrum at the end, vs the Lean memo model with
+    the generated effect flags (op c19.cacheadj)."""
+    dadi = ctx['dadi']; G = dadi.Godambe; drv = ctx['driver']
+    api = case['api']
+    B, data, boots = realise(dadi, case)
+    small = dict(case); small['B'] = np.asarray(B); small['cacheadj'] = True
+    B = B * case['theta']
+    shape = tuple(case['shape']) if case.get('shape') else None
+    func = model_func(dadi, B, masks=case.get('masks'), shape=shape)
+    p_in = list(case['p']); eps = case['eps']; thetas = list(case['thetas'])
+    o = [int(i) for i in rng.permutation(len(boots))]
+    if o == list(range(len(boots))): o = o[1:] + o[:1]
+    def calls():
+        yield 'first', lambda: call_api(G, api, func, [10], boots, p_in, data, eps, False, log=case['log'], nested=case['nested'], full=case['full'], thetas=thetas, variant=case.get('variant'))
+        yield 'FIM_uncert', lambda: call_api(G, 'FIM_uncert', func, [10], boots, p_in, data, eps, False, log=case['log'])
+        yield 'pairs_permuted', lambda: call_api(G, api, func, [10], [boots[i] for i in o], p_in, data, eps, False, log=case['log'], nested=case['nested'], full=case['full'],
+                                                 thetas=[thetas[i] for i in o], variant=case.get('variant'))
+    def run_all(fresh, cache_obj=None, spy_ll=None):
+        saved = G.cache
+        if cache_obj is not None: G.cache = cache_obj
+        G.cache.clear()
+        outs = []
+        o_ll = dadi.Inference.ll; o_gg = G.get_grad; cur = [1.0]
+        def gg(f, p0, e, args=()):
+            cur[0] = float(args[1]) if len(args) >= 2 else 1.0
+            try: return o_gg(f, p0, e, args=args)
+            finally: cur[0] = 1.0
+        def ll(fs, dat):
+            spy_ll(fs, cur[0]); return o_ll(fs, dat)
+        try:
+            if spy_ll is not None: dadi.Inference.ll = ll; G.get_grad = gg
+            for nm, f in calls():
+                if fresh: G.cache.clear()
+                with np.errstate(all='ignore'), quiet(case.get('masks') is not None):
+                    outs.append(flat_result(api if nm != 'FIM_uncert' else 'FIM_uncert', f()))
+            held = list(dict.items(G.cache))
+        finally:
+            dadi.Inference.ll = o_ll; G.get_grad = o_gg
+            G.cache = saved; G.cache.clear()
+        return outs, held
+    chk.l3(('cacheadj', api, case['log'], len(boots)))
+    try:
+        fresh, _ = run_all(True)
+        ld = LogDict(); used = []
+        seq, held = run_all(False, cache_obj=ld, spy_ll=lambda fs, a: used.append((np.array(np.ma.getdata(fs), dtype=float).ravel().copy(), a)))
+    except Exception as e:
+        chk.fail('%s:boot_theta_adjusts:%s' % (api, type(e).__name__), '%s with boot_theta_adjusts raises %r' % (api, e), small); return
+    # ---- L3 (1): the cache holds unscaled model spectra
+    def fresh_fs(key):
+        # the function object the key holds (the user's function, or the closure an entry point wrapped around it), evaluated afresh
+        f = key[0] if callable(key[0]) else func
+        with quiet(case.get('masks') is not None):
+            return np.asarray(np.ma.getdata(f(np.array(key[1]), key[2], key[3])), dtype=float).ravel()
+    for key, val in held:
+        w = fresh_fs(key); v = np.asarray(np.ma.getdata(val), dtype=float).ravel()
+        if not (v.shape == w.shape and np.all(np.abs(v - w) <= 1e-12 * np.maximum(np.abs(w), 1e-300))):
+            j = int(np.argmax(np.abs(v - w)))
+            chk.fail('cache:value_mutated', 'after %s(boot_theta_adjusts=%r) Godambe.cache holds, for the parameters %r, a spectrum that is not the one the model function returns '
+                     '(entry %d: %r vs %r): the cached spectrum was rescaled in place' % (api, thetas, list(key[1]), j, float(v[j]), float(w[j])), small)
+            break
+    # ---- L3 (2): history independence and invariance under permuting the pairs together
+    names = ['first', 'FIM_uncert', 'pairs_permuted']
+    for nm, a, b in zip(names, fresh, seq):
+        if not (a.shape == b.shape and np.array_equal(np.isnan(a), np.isnan(b)) and np.all(np.abs(a - b)[~np.isnan(a)] <= 1e-9 * np.maximum(np.abs(a), 1e-300)[~np.isnan(a)])):
+            chk.fail('cache:value_mutated:history', 'call %r of the history [%s(boot_theta_adjusts), FIM_uncert, %s(pairs permuted)] on one function and cache returns %r; on an empty cache %r'
+                     % (nm, api, api, b.tolist()[:4], a.tolist()[:4]), small)
+            break
+    if not (fresh[0].shape == fresh[2].shape and np.all(np.abs(fresh[0] - fresh[2])[~np.isnan(fresh[0])] <= 1e-7 * np.maximum(np.abs(fresh[0]), 1e-300)[~np.isnan(fresh[0])])):
+        chk.fail('%s:boot_order:pairs' % api, '%s changes from %r to %r when the (bootstrap, boot_theta_adjusts) pairs are permuted together (order %r)'
+                 % (api, fresh[0].tolist()[:4], fresh[2].tolist()[:4], o), small)
+    # recorded: permuting the bootstraps alone is a different problem (the statement does not claim invariance; C19_boot_perm_separate_counterexample)
+    try:
+        G.cache.clear()
+        with np.errstate(all='ignore'), quiet(case.get('masks') is not None):
+            r_sep = flat_result(api, call_api(G, api, func, [10], [boots[i] for i in o], p_in, data, eps, False, log=case['log'], nested=case['nested'], full=case['full'],
+                                              thetas=thetas, variant=case.get('variant')))
+        chk.stat('separate_permutation:' + ('changes_result' if not np.allclose(r_sep, fresh[0], rtol=1e-6, atol=0, equal_nan=True) else 'same_result'))
+    except Exception:
+        chk.stat('separate_permutation:raises')
+    finally:
+        G.cache.clear()
+    # ---- K: the factor of every spectrum used / stored vs the memo model with the generated effect flags
+    ktab = {}; otab = {}; ops = []; ins = [e for e in ld.log if e[0] == 'in']
+    if len(ins) != len(used):
+        chk.k_bad('cache_adjust', small, dict(lookups=len(ins), likelihoods=len(used)), None, None); return
+    impl_scale = []
+    for (kind, key, _), (fsv, a) in zip(ins, used):
+        k = ktab.setdefault(key[1:], len(ktab))
+        ob = otab.setdefault(id(key[0]) if callable(key[0]) else key[0], len(otab))        # the log keeps every key alive: identities are distinct
+        ops.append('%d:%d:%d:%s' % (ob, ob, k, rat(a)))
+        w = fresh_fs(key); good = np.abs(w) > 0
+        impl_scale.append((ob, k, float(np.median(fsv[good] / w[good]))))
+    out = drv.ask('c19.cacheadj impl %s' % ';'.join(ops))
+    t = out.split(' ')
+    if t[0] != 'ok' or len(t) != 3:
+        chk.k_bad('cache_adjust', small, None, out, None); return
+    def toks(x):
+        r = []
+        for q in (x.split(',') if x != '-' else []):
+            ok_, sc = q.split('*'); r.append((int(ok_.split('.')[0]), int(ok_.split('.')[1]), float(Fraction(sc))))
+        return r
+    mu, mt = toks(t[1]), toks(t[2])
+    held_scale = []
+    for key, val in held:
+        w = fresh_fs(key); good = np.abs(w) > 0
+        held_scale.append((otab.get(id(key[0]) if callable(key[0]) else key[0], -1), ktab.get(key[1:], -1),
+                           float(np.median(np.asarray(np.ma.getdata(val), dtype=float).ravel()[good] / w[good]))))
+    def same(x, y):
+        return len(x) == len(y) and all(a[:2] == b[:2] and abs(a[2] - b[2]) <= 1e-9 * max(abs(b[2]), 1e-300) for a, b in zip(x, y))
+    if same(impl_scale, mu) and same(held_scale, mt): chk.k_ok('cache_adjust')
+    else:
+        bad = [i for i, (a, b) in enumerate(zip(impl_scale, mu)) if not same([a], [b])][:3]
+        chk.k_bad('cache_adjust', small, dict(first_diff=bad, used=[impl_scale[i] for i in bad], held=held_scale[:4]), dict(used=[mu[i] for i in bad], held=mt[:4]), None)
+    chk.stat('cache_adjust_evaluations', len(ops))
+
 # ----------------------------------------------------------------------------------------------- sum_chi2_ppf
 def chi2_cases(chk, ctx, rng, count):
     dadi = ctx['dadi']; G = dadi.Godambe; drv = ctx['driver']
@@ -1287,14 +1513,19 @@ def run(chk, ctx):
     for _ in range(1 if quick else 6):
         pcs += nested_matrix(rng, dadi)
         pcs += mask_matrix(rng, dadi)
+        pcs += nd_matrix(rng, dadi)
     for _ in range(30 if quick else 500):
         mm = MASK_MODES[int(rng.integers(len(MASK_MODES)))] if rng.random() < 0.4 else 'none'
         pcs.append(gen_pipeline_case(rng, dadi, api=APIS_ALL[int(rng.integers(len(APIS_ALL)))], mask_mode=mm))
+    nadj = 0
     for i, c in enumerate(pcs):
         if i < 2: chk.sample(dict(kind='pipeline', api=c['api'], multinom=c['multinom'], log=c['log'], params=c['p'], theta=c['theta'], eps=c['eps'], nested=c['nested'],
                                   bootstraps=c['nboot'], samples=c['ns']))
         pipeline_case(chk, ctx, c)
         if i % (3 if quick else 2) == 0: perm_case(chk, ctx, c, rng)
+        if c.get('thetas_mode') == 'varied' and not c['multinom'] and c.get('variant') != 'just_hess':
+            nadj += 1
+            if quick or nadj % 3 == 0: cacheadj_case(chk, ctx, c, rng)
     # ---- cache: directed scenarios (the nested tests with multinom False/True), then random histories
     hs = [gen_history(rng, dadi, directed=(api, m)) for api in ('LRT_adjust', 'Wald_stat', 'score_stat') for m in (False, True)]
     hs += [gen_history(rng, dadi) for _ in range(8 if quick else 150)]
@@ -1322,6 +1553,7 @@ def replay(chk, ctx, data):
     elif inp.get('pipeline'):
         c = dict(inp); c['B'] = arr(inp['B'])
         if inp.get('perm'): perm_case(chk, ctx, c, rng)
+        elif inp.get('cacheadj'): cacheadj_case(chk, ctx, c, rng)
         else: pipeline_case(chk, ctx, c)
     elif inp.get('history'):
         h = dict(inp); h['B'] = [arr(b) for b in inp['B']]
